@@ -690,6 +690,8 @@ func c15GoodEv(membership, stateKey string) c15EvScen {
 func genC15(c *Ctx) {
 	genC15SendJoin(c)
 	genC15Invite(c)
+	genC15RestrictedJoin(c)
+	genC15Make(c)
 }
 
 func (c *Ctx) c15Run(impl string, scen interface{}, desc string) []byte {
